@@ -239,9 +239,9 @@ def api_recipe(rng, fixture=None):
     R, C = (2, 2) if rng.random() < .2 else (rng.randint(2, 8), rng.randint(2, 6))
     init = {"num_rows": R, "num_cols": C}
     if rng.random() < .4:
-        init["sheet_name"] = rng.choice(["Feuille é", "数表", "Sheet A"])
+        init["sheet_name"] = rng.choice(["Feuille é", "数表", "Sheet A", "  Sheet with blanks  ", " lead", "trail "])
     if rng.random() < .4:
-        init["table_name"] = rng.choice(["Tableau ü", "表", "My Table"])
+        init["table_name"] = rng.choice(["Tableau ü", "表", "My Table", "  My Table  ", "Table\u00a0nbsp "])
     tables = [((0, 0), R, C)]
     if fixture is not None:
         init = {"fixture": fixture}
@@ -287,7 +287,8 @@ def api_recipe(rng, fixture=None):
         if rng.random() < .5:
             ops.append({"op": "name_enabled", "tbl": tbl, "v": rng.random() < .5})
         if rng.random() < .3:
-            ops.append({"op": "rename_table", "tbl": tbl, "name": rng.choice(["Renommé", "T " + str(rng.randrange(100))])})
+            ops.append({"op": "rename_table", "tbl": tbl, "name": rng.choice(["Renommé", "T " + str(rng.randrange(100)), "  indented " + str(rng.randrange(100)), "trailing %d   " % rng.randrange(100),
+                                                                              "\ttab " + str(rng.randrange(100)), "inner   blanks " + str(rng.randrange(100))])})
         # the setters are independent of each other: any order (visibility before or after the text, name before or after sizes)
         mine = ops[first_op:]
         rng.shuffle(mine)
@@ -373,6 +374,12 @@ def api_case(case, rec):
                     asked[(tuple(op["tbl"]), k)] = op["v"]
             elif k == "rename_table":
                 asked[(tuple(op["tbl"]), "name")] = op["name"]
+        # the names given when the document was created
+        init = recipe["init"]
+        if "sheet_name" in init and g_set[0]["name"] != init["sheet_name"]:
+            rec.violation("api_value_not_reported", {"attr": "sheet_name"}, {"asked": repr(init["sheet_name"]), "reported": repr(g_set[0]["name"])}, case=case)
+        if "table_name" in init and not any(o["op"] == "rename_table" and o["tbl"] == [0, 0] for o in recipe["ops"]):
+            asked[((0, 0), "name")] = init["table_name"]
         for key, want in asked.items():
             tb = g_set[key[0][0]]["tables"][key[0][1]]
             got = {"row_height": lambda: tb["row_heights"][key[2]], "col_width": lambda: tb["col_widths"][key[2]], "header_rows": lambda: tb["num_header_rows"],
